@@ -420,6 +420,9 @@ func handleLoad(params internal.HandlerFuncParams) ([]byte, error) {
 		}
 	}
 
+	// The loaded users may bring key and channel patterns that have not been compiled yet.
+	acl.CompileGlobs()
+
 	return []byte(constants.OkResponse), nil
 }
 
